@@ -173,6 +173,24 @@ Proof.
   - destruct (O1 i X) as [A _]. congruence.
   - destruct (O2 i X) as [A _]. congruence.
 Qed.
+
+(** A writer that got an OSError anywhere never commits: the shared destination then holds the previous contents
+    or the complete contents of the other writer. *)
+Theorem same_dest_fault_never_commits : forall sched,
+  let st := run2 c s1 s2 sched (start d0) in
+  faulted false (tr st) ->
+  committed (p1 st) = false /\
+  (sd st (File (dest s1)) = d0 (File (dest s1)) \/
+   (committed (p2 st) = true /\ sd st (File (dest s1)) = Some (new s2))).
+Proof.
+  intros sched st Hf.
+  assert (Hc : committed (p1 st) = false).
+  { apply doomed_not_committed. apply (fault_doom_run c Hsafe s1 s2 sched (start d0)); [|exact Hf].
+    cbn. intros [o []]. }
+  split; [exact Hc|].
+  destruct (same_dest_no_mixture sched) as (Ds & _). fold st in Ds.
+  destruct Ds as [(A & B & C)|[(A & B)|(A & B)]]; auto. congruence.
+Qed.
 End Same.
 
 (** For every generated protocol in the family. *)
@@ -188,6 +206,19 @@ Proof.
   destruct (run2t_refines x Hf d0 s1 s2 sched) as (Hdir & _ & H1 & H2). fold st in Hdir, H1, H2.
   rewrite Hdir, (R_committed _ _ _ H1), (R_committed _ _ _ H2), (R_assoc _ _ _ H1), (R_assoc _ _ _ H2).
   exact (same_dest_no_mixture (derive_cfg x) Hs d0 s1 s2 Hd sched).
+Qed.
+
+Theorem proto_same_dest_fault_never_commits x d0 s1 s2 : dest s1 = dest s2 -> proto_safe x = true -> forall sched,
+  let st := run2t x s1 s2 sched (startt d0) in
+  faulted false (trt st) ->
+  committedt (q1 st) = false /\
+  (sdt st (File (dest s1)) = d0 (File (dest s1)) \/
+   (committedt (q2 st) = true /\ sdt st (File (dest s1)) = Some (new s2))).
+Proof.
+  intros Hd H sched st. destruct (psafe_family x H) as [Hf Hs].
+  destruct (run2t_refines x Hf d0 s1 s2 sched) as (Hdir & Ht & H1 & H2). fold st in Hdir, Ht, H1, H2.
+  rewrite Hdir, Ht, (R_committed _ _ _ H1), (R_committed _ _ _ H2).
+  exact (same_dest_fault_never_commits (derive_cfg x) Hs d0 s1 s2 Hd sched).
 Qed.
 
 (** Both orders of the two renames occur: the last rename wins, each time with a complete content. *)
